@@ -77,7 +77,7 @@ def run(rep):
              'no exit other than exhaustion, every Invalid from an element is '
              'caught and appended, DoesNotImplement appended iff not tentative '
              'and not tester(candidate); one error -> raised alone, several -> '
-             'MultipleInvalid(iface, candidate, excs), none -> True', floor=5)
+             'MultipleInvalid(iface, candidate, excs), none -> True', floor=3)
     rep.rule('R17.3', 'selection: vtype c -> implementedBy else providedBy; '
              'functions on a class under vtype c described with imlevel=1, '
              'bound methods through fromMethod, other functions imlevel 0; '
@@ -103,79 +103,8 @@ def run(rep):
 
     # ---- R17.2 ---------------------------------------------------------------
     v = find_def(mod, '_verify')
-    cfg = cfg_of(v)
-    lps = [n for n in v.body if isinstance(n, ast.For)]
-    ok = len(lps) == 1
-    lp = lps[0] if ok else None
-    if ok:
-        exits = [n for n in walk_local(lp) if isinstance(
-            n, (ast.Break, ast.Return, ast.Continue))]
-        raises = [n for n in walk_local(lp) if isinstance(n, ast.Raise)]
-        rep.check('R17.2', 'verify._verify', not exits and not raises,
-                  'the element loop has no exit other than exhaustion (exits %d, '
-                  'raises %d)' % (len(exits), len(raises)), construct='no-exit',
-                  node=lp)
-        trys = [n for n in lp.body if isinstance(n, ast.Try)]
-        okt = len(trys) == 1 and len(lp.body) == 1
-        if okt:
-            t = trys[0]
-            call = find_all(t, '_verify_element(iface, name, desc, candidate, vtype)')
-            okt = len(t.body) == 1 and bool(call) and len(t.handlers) == 1 and \
-                dotted(t.handlers[0].type) == 'Invalid' and t.handlers[0].name and \
-                any(match('excs.append(%s)' % t.handlers[0].name, s, 'exec')
-                    is not None for s in t.handlers[0].body)
-        rep.check('R17.2', 'verify._verify', okt,
-                  'every element is verified inside try/except Invalid (the '
-                  'common base of all verification errors) and the error is '
-                  'appended', construct='catch-append', node=lp)
-        tg = [e.id for e in lp.target.elts] if isinstance(lp.target, ast.Tuple) else []
-        rep.check('R17.2', 'verify._verify', tg == ['name', 'desc'],
-                  'loop binds (name, desc) of the inherited view', construct='target',
-                  node=lp)
-    else:
-        rep.check('R17.2', 'verify._verify', False, 'element loop not found', node=v)
-    dn = find_all(v, 'excs.append(DoesNotImplement(iface, candidate))', 'exec')
-    okd = len(dn) == 1
-    if okd:
-        g = dn[0][0].parent
-        okd = isinstance(g, ast.If) and match(
-            'not tentative and not tester(candidate)', g.test) is not None
-    rep.check('R17.2', 'verify._verify', okd,
-              'DoesNotImplement appended iff not tentative and not '
-              'tester(candidate)', construct='declares', node=v)
-    tail = [n for n in v.body if isinstance(n, ast.If) and match('excs', n.test) is not None]
-    okt = len(tail) == 1
-    if okt:
-        t = tail[0]
-        one = [n for n in t.body if isinstance(n, ast.If)
-               and match('len(excs) == 1', n.test) is not None]
-        okt = len(one) == 1 and any(
-            isinstance(s, ast.Raise) and match('excs[0]', s.exc) is not None
-            for s in one[0].body)
-        multi = [s for s in t.body if isinstance(s, ast.Raise)]
-        okt = okt and len(multi) == 1 and match(
-            'MultipleInvalid(iface, candidate, excs)', multi[0].exc) is not None
-        okt = okt and lp is not None and v.body.index(t) > v.body.index(lp)
-    rep.check('R17.2', 'verify._verify', okt,
-              'after the loop: exactly one error -> that error; several -> '
-              'MultipleInvalid(iface, candidate, excs)', construct='report', node=v)
-    last = v.body[-1]
-    rep.check('R17.2', 'verify._verify',
-              isinstance(last, ast.Return) and match('True', last.value) is not None,
-              'no error -> True', construct='true', node=v)
-    init = find_all(v, 'excs = []', 'exec')
-    rep.check('R17.2', 'verify._verify', len(init) == 1,
-              'errors start empty', construct='init', node=v)
-
-    # ---- R17.3 ---------------------------------------------------------------
-    ifs = [n for n in v.body if isinstance(n, ast.If) and match("vtype == 'c'", n.test) is not None]
-    ok = len(ifs) == 1 and any(
-        match('tester = iface.implementedBy', s, 'exec') is not None for s in ifs[0].body) \
-        and any(match('tester = iface.providedBy', s, 'exec') is not None
-                for s in ifs[0].orelse)
-    rep.check('R17.3', 'verify._verify', ok,
-              "vtype 'c' -> iface.implementedBy, otherwise iface.providedBy",
-              construct='tester', node=v)
+    from . import specsem
+    specsem.verify_collects(rep, mod, 'R17.2', 'R17.3')
     vc = find_def(mod, 'verifyClass')
     vo = find_def(mod, 'verifyObject')
     rep.check('R17.3', 'verify.verifyClass',
@@ -272,9 +201,9 @@ def run(rep):
               construct='not-callable', node=e)
 
     # ---- R17.4 ---------------------------------------------------------------
-    ok = lp is not None and (
-        match('iface.namesAndDescriptions(all=True)', lp.iter) is not None or
-        match('iface.namesAndDescriptions(True)', lp.iter) is not None)
+    ok = any(match('iface.namesAndDescriptions(all=True)', header_expr(n)) is not None or
+             match('iface.namesAndDescriptions(True)', header_expr(n)) is not None
+             for n in cfg_of(v).nodes if n.kind == 'iter')
     rep.check('R17.4', 'verify._verify', ok,
               'iterates iface.namesAndDescriptions(all=True) (every attribute '
               'the interface or its bases name)', construct='view', node=v)
